@@ -523,8 +523,17 @@ def hist_stream(ctx):
     ctx.oblige("correspondence:histories through one compiled profile vs fresh validations (byte equality, fixed clock)", bad == 0)
 
 
+def memo_theorems(ctx):
+    """process-wide memo tables (the mechanism behind most history-dependent changes): proved apart from the skeleton"""
+    return prove(ctx, "Acv.Props.C09Memo", ["Acv.Memo.memo_transparent", "Acv.Memo.step_answer", "Acv.Memo.step_sound", "Acv.Memo.partial_key_leaks", "Acv.Memo.partialKey_not_complete"])
+
+
 def check_C09(ctx):
-    return skeleton_check(ctx, "C09", "Acv.Props.C09", C09_THEOREMS, extra=hist_stream,
+    def extra(ctx):
+        for b in memo_theorems(ctx):
+            raise b
+        hist_stream(ctx)
+    return skeleton_check(ctx, "C09", "Acv.Props.C09", C09_THEOREMS, extra=extra,
         rule="histories of 4..9 documents (random graphs that pass/fail, repeats, empty graph, JSON-LD-rejected and undecodable documents) through one PreparedEvalQuery of a random declarative profile with validations on all three levels (one history in six uses a profile that leaves `core`/`apiContract` to the built-in prefix table); in half of the histories OTHER profiles, which rebind built-in aliases or reuse `ex` for another namespace, are validated by the same process between the documents; one history in six runs over documents whose @context is a REFERENCE to a context file that is revised between the calls; each report compared byte for byte with a fresh ValidateWithConfiguration under a fixed clock in the same process AND with the same validation run alone in a process of its own (which sees the same context files)",
         assumptions=["OPA's PreparedEvalQuery.Eval is a pure function of (query, input) returning fresh result trees: this is the hypothesis of history_independent (Engine.evalDoc) and is only observed by the history runs"])
 
